@@ -989,6 +989,17 @@ func (y *Sym) DeepAlts(limit int) []*Sym {
 	if len(y.Args) == 0 {
 		return []*Sym{y}
 	}
+	if (y.Op == "rangeval" || y.Op == "elem") && y.Args[0].Op == "list" && len(y.Args[0].Args) > 0 {
+		// an element of a literal list: any of the listed values
+		var out []*Sym
+		for _, a := range y.Args[0].Args {
+			out = append(out, a.DeepAlts(limit)...)
+			if len(out) >= limit {
+				return out[:limit]
+			}
+		}
+		return out
+	}
 	outs := [][]*Sym{{}}
 	for _, a := range y.Args {
 		as := a.DeepAlts(limit)
